@@ -1,6 +1,6 @@
 (* Correspondence cases and output checkers for the pairwise aligners. *)
 From Coq Require Import QArith Qabs ZArith List Bool Arith.
-From LV Require Import Common.Cases Align.DP Align.Calign Align.LibScore.
+From LV Require Import Common.Cases Align.DP Align.Calign Align.LibScore Align.Opt.
 Import ListNotations.
 
 Definition oz_eqb : option Z -> option Z -> bool := option_eqb Z.eqb.
@@ -84,8 +84,55 @@ Definition dist_ok (c : align_case) : bool :=
   | _, _ => true
   end.
 
+(* C03 on an implementation output (scale = 1, short sequences): brute-force maximum over ALL
+   move lists (global/overlap), over all slice pairs and move lists (local) *)
+Fixpoint all_moves (fuel nb na : nat) : list (list move) :=
+  match fuel with
+  | O => [[]]
+  | S f =>
+      match nb, na with
+      | O, O => [[]]
+      | _, _ =>
+          (match nb with S nb' => map (cons MA) (all_moves f nb' na) | O => [] end) ++
+          (match nb, na with S nb', S na' => map (cons MM) (all_moves f nb' na') | _, _ => [] end) ++
+          (match na with S na' => map (cons MB) (all_moves f nb na') | O => [] end)
+      end
+  end.
+
+Definition qmaxl (l : list Q) (d : Q) : Q := fold_left (fun m x => if Qle_bool m x then x else m) l d.
+
+Definition brute_global (p : cin) (md : mode) (sec : bool) : Q :=
+  let nb := length (seqB p) in let na := length (seqA p) in
+  match map (sc_moves p md sec 0 0 1) (all_moves (nb + na) nb na) with
+  | [] => 0
+  | x :: t => qmaxl t x
+  end.
+
+Definition brute_local (p : cin) (sec : bool) : Q :=
+  let nb := length (seqB p) in let na := length (seqA p) in
+  qmaxl (flat_map (fun i0 => flat_map (fun j0 => flat_map (fun di => flat_map (fun dj =>
+           map (sc_moves p Local sec i0 j0 0) (all_moves (di + dj) di dj))
+           (seq 0 (S (na - j0)))) (seq 0 (S (nb - i0)))) (seq 0 (S na))) (seq 0 (S nb))) 0.
+
+Definition optimal_ok (c : align_case) : bool :=
+  let p := eff_in c in
+  if Qeq_bool (scale p) 1 && (length (seqA p) <=? 4)%nat && (length (seqB p) <=? 4)%nat then
+    match ac_mode c, result_sim (ac_out c) with
+    | Dialign, _ => true
+    | Local, Some s => if (length (seqA p) + length (seqB p) <=? 6)%nat then Qeq_bool s (brute_local p (eff_sec c)) else true
+    | md, Some s => Qeq_bool s (brute_global p md (eff_sec c))
+    | _, None => false
+    end
+  else true.
+
+(* score-only correspondence (C03 is about scores, not about which optimal alignment is returned) *)
+Definition score_eqb (c : align_case) : bool :=
+  oq_eqb (result_sim (model_of c)) (result_sim (ac_out c)).
+
 Definition align_case_code (c : align_case) : nat :=
   bit 0 (result_eqb (model_of c) (ac_out c))
   + bit 1 (result_validb (seqA (ac_in c)) (seqB (ac_in c)) (ac_out c))
   + bit 2 (rescore_ok false c && dist_ok c)
-  + bit 4 (rescore_ok true c).
+  + bit 3 (optimal_ok c)
+  + bit 4 (rescore_ok true c)
+  + bit 5 (score_eqb c).
